@@ -7,7 +7,8 @@
  *   feed <hex>                                   application loop over one received chunk: call
  *                                                MHD_websocket_decode on the unconsumed rest until all is
  *                                                consumed or a negative status is returned
- *   enc_text <hex> <frag> <step|->               MHD_websocket_encode_text (utf8_step pointer NULL for -)
+ *   enc_text <hex> <frag> <step|-|=>             MHD_websocket_encode_text (utf8_step pointer NULL for -; = : the
+ *                                                application's utf8_step variable as the previous enc_text left it)
  *   enc_bin <hex> <frag> | enc_ping <hex> | enc_pong <hex> | enc_close <code> <hex>
  *   split_close <hex>                            MHD_websocket_split_close_reason
  *   utf8 <hex> <step>                            static MHD_websocket_check_utf8 (white box)
@@ -26,6 +27,7 @@ static struct MHD_WebSocketStream *ws;
 static size_t alloc_limit = (size_t) -1;
 static uint8_t *rng_buf;
 static size_t rng_len, rng_pos, rng_chunk = 4;
+static int app_utf8_step;   /* the sending application's utf8_step variable (enc_text … =) */
 
 static void *h_malloc (size_t n)
 {
@@ -95,6 +97,7 @@ int main (void)
       if (ws) MHD_websocket_stream_free (ws);
       ws = NULL;
       free (rng_buf); rng_buf = NULL; rng_len = rng_pos = 0;
+      app_utf8_step = 0;
       alloc_limit = (size_t) c;
       rng_chunk = (size_t) d;
       st = MHD_websocket_stream_init2 (&ws, (int) a, (size_t) b, h_malloc, h_realloc, h_free, NULL, h_rng);
@@ -143,12 +146,17 @@ int main (void)
       size_t n, fl = 0; uint8_t *x = lp_unhex (l.w[1], &n); char *fr = NULL;
       int step = 0, usestep = 0, st;
       if (!x) { puts ("bad-op"); continue; }
-      if (0 != strcmp (l.w[3], "-"))
+      if (0 == strcmp (l.w[3], "="))
+      {
+        step = app_utf8_step; usestep = 1;
+      }
+      else if (0 != strcmp (l.w[3], "-"))
       {
         if (!lp_u64 (l.w[3], &b) || b > 100) { free (x); puts ("bad-op"); continue; }
         step = (int) b; usestep = 1;
       }
       st = MHD_websocket_encode_text (ws, (const char *) x, n, (int) a, &fr, &fl, usestep ? &step : NULL);
+      if (usestep) app_utf8_step = step;
       do_frame_out ("e", st, fr, fl);
       printf (" step=%d\n", step);
       free (x);
